@@ -583,7 +583,11 @@ mk_qlist(int32 index, int for_values)
         if (!slot_null) {
             H4V_ND(unsigned, a_count);
             H4V_ND(int32, a_hdftype);
+#ifdef RA_W /* one element size per run: keeps count*szof a constant multiplication */
+            unsigned a_szof = RA_W;
+#else
             H4V_ND(unsigned, a_szof);
+#endif
             at            = malloc(sizeof(NC_attr));
             NC_array  *d  = malloc(sizeof(NC_array));
             NC_string *s  = malloc(sizeof(NC_string));
